@@ -3,5 +3,6 @@ only for trying a changed copy (tools/mutant.sh, tools/seeded.sh) without touchi
 scratch directory."""
 import os
 
+VERIF = os.path.dirname(os.path.dirname(os.path.abspath(__file__)))   # /verif, or a copy of it (vp run snapshot)
 REPO = os.environ.get("VERIF_REPO", "/repo")
 ALT = REPO != "/repo"
